@@ -336,14 +336,26 @@ def analyse_run(ctx, sig, case, res, inputs, opts, do_votes=True,
                 ctx.evaluations += 1
                 dv = {t: 0 for t in sibs}
                 dc = {t: 0.0 for t in sibs}
+                lo = {t: 0 for t in sibs}   # votes a child gets for sure
+                hi = {t: 0 for t in sibs}   # votes it can get at most
                 ambiguous = False
                 rows = []
                 for it, s in enumerate(subsets):
                     fr = eu.float_corr(refs[:, s], xs[ci, s])
                     j = int(fr.argmax())
-                    if any(fr[k] >= fr[j] - eu.REL and types[k] != types[j]
-                           for k in range(len(leaves))):
+                    adm = set(types[k] for k in range(len(leaves))
+                              if fr[k] >= fr[j] - eu.REL)
+                    frag = eu.fragile_constant(xs[ci, s]) or \
+                        eu.fragile_constant(refs[:, s])
+                    if frag:
+                        adm = set(types)
+                        ctx.count('pipeline:fragile-constant-row')
+                    if len(adm) > 1:
                         ambiguous = True
+                    else:
+                        lo[types[j]] += 1
+                    for t in adm:
+                        hi[t] += 1
                     dv[types[j]] += 1
                     dc[types[j]] += float(fr[j])
                     if on_iteration is not None:
@@ -358,7 +370,8 @@ def analyse_run(ctx, sig, case, res, inputs, opts, do_votes=True,
                                       ' ~ tally_votes', found=False, model=m)
                             return True
                         sc = [eu.ssq_to_r(eu.frac(v)) for v in m['scores']]
-                        if max(abs(a - b) for a, b in zip(sc, fr)) > eu.REL:
+                        if not frag and max(
+                                abs(a - b) for a, b in zip(sc, fr)) > eu.REL:
                             ctx.disagreements_checked += 1
                             violation('correspondence/corrSsq',
                                       'correspondence CTM.Numeric.corrSsq ~ '
@@ -368,7 +381,32 @@ def analyse_run(ctx, sig, case, res, inputs, opts, do_votes=True,
                             return True
                         rows.append([m['idx'], eu.rat(sc[m['idx']])])
                 if ambiguous:
+                    # tie between children in some iteration: the record
+                    # must still be one of the admissible outcomes
                     n_amb += 1
+                    listed = [(rec['assignment'],
+                               rec['bootstrapping_probability'])] + list(zip(
+                        rec['runner_up_assignment'],
+                        rec['runner_up_probability']))
+                    bad = None
+                    for nm, pp in listed:
+                        k = eu.whole_votes(pp, iters)
+                        if nm not in lo or k is None or \
+                                not lo[nm] <= k <= hi[nm]:
+                            bad = (nm, pp)
+                    truncated = len(rec['runner_up_assignment']) >= n_runners
+                    if bad is None and not truncated:
+                        for t in sibs:
+                            if lo[t] > 0 and t not in [x[0] for x in listed]:
+                                bad = (t, 'not listed')
+                    if bad is not None:
+                        violation('votes/tie-inadmissible',
+                                  'cell %r at node %r: %r is not possible: '
+                                  'sure votes %r, possible votes %r'
+                                  % (cid, parent, bad, lo, hi), cell=cid,
+                                  node=parent, record=rec, genes=g,
+                                  subsets=subsets)
+                        return True
                     continue
                 ctx.count('pipeline:vote-getters-%d' % min(
                     3, sum(1 for v in dv.values() if v > 0)))
